@@ -324,53 +324,69 @@ Theorem zone_first_of_at_midnight_refuted :
 Proof. exact zone_first_of_skipped_midnight_refuted. Qed.
 Print Assumptions zone_first_of_at_midnight_refuted.
 
-(* ---- the month helpers under calendar.setfirstweekday(fw) (the fw_ functions of Model/WeekdayZone.v): calendar.monthcalendar lays the rows out
-   from weekday fw, the helpers index them with the requested weekday: they answer for weekday (wd + fw) mod 7.
-   Finding calendar-firstweekday: right for fw = 0 (the default) only. ---- *)
-Theorem first_of_under_firstweekday : forall fw u p o, wf_date p -> 0 <= fw <= 6 -> owd_ok o ->
-  fw_first_of fw u p o = d_first_of u p (option_map (fun wd => (wd + fw) mod 7) o).
-Proof. exact fw_first_of_shift. Qed.
-Print Assumptions first_of_under_firstweekday.
+(* ---- first_of / last_of / nth_of while a process-wide calendar.setfirstweekday(fw) is in force (the fw_ functions of
+   Model/WeekdayZone.v, compared with /repo under every setting 0..6 by the `firstweekday` stream): the month helpers build
+   calendar.Calendar(calendar.MONDAY) themselves, so for EVERY configured first weekday the result is the Date model's and the
+   theorems above hold unchanged.  (Finding calendar-firstweekday, now fixed: the helpers used to index the rows of
+   calendar.monthcalendar, laid out from weekday fw, and answered for weekday (wd + fw) mod 7.) ---- *)
+Theorem monday_calendar_is_the_default_monthcalendar : forall y m i c, mc_get_fw CAL_MONDAY y m i c = mc_get y m i c.
+Proof. exact mc_get_monday. Qed.
+Print Assumptions monday_calendar_is_the_default_monthcalendar.
 
-Theorem last_of_under_firstweekday : forall fw u p o, wf_date p -> 0 <= fw <= 6 -> owd_ok o ->
-  fw_last_of fw u p o = d_last_of u p (option_map (fun wd => (wd + fw) mod 7) o).
-Proof. exact fw_last_of_shift. Qed.
-Print Assumptions last_of_under_firstweekday.
+Theorem first_of_under_any_firstweekday : forall fw u p o, fw_first_of fw u p o = d_first_of u p o.
+Proof. exact fw_first_of_any. Qed.
+Print Assumptions first_of_under_any_firstweekday.
 
-Theorem first_of_default_firstweekday_partial : forall u p o, wf_date p -> owd_ok o -> fw_first_of 0 u p o = d_first_of u p o.
-Proof. exact fw_first_of_default. Qed.
-Print Assumptions first_of_default_firstweekday_partial.
+Theorem last_of_under_any_firstweekday : forall fw u p o, fw_last_of fw u p o = d_last_of u p o.
+Proof. exact fw_last_of_any. Qed.
+Print Assumptions last_of_under_any_firstweekday.
 
-Theorem last_of_default_firstweekday_partial : forall u p o, wf_date p -> owd_ok o -> fw_last_of 0 u p o = d_last_of u p o.
-Proof. exact fw_last_of_default. Qed.
-Print Assumptions last_of_default_firstweekday_partial.
+Theorem nth_of_under_any_firstweekday : forall fw u p n wd, is_unit u -> wf_date p -> valid_wd wd -> 1 <= n ->
+  fw_nth_of fw u p n wd = d_nth_of u p n wd.
+Proof. exact fw_nth_of_any. Qed.
+Print Assumptions nth_of_under_any_firstweekday.
 
-Theorem nth_of_default_firstweekday_partial : forall u p n wd, is_unit u -> wf_date p -> valid_wd wd -> 1 <= n ->
-  fw_nth_of 0 u p n wd = d_nth_of u p n wd.
-Proof. exact fw_nth_of_default. Qed.
-Print Assumptions nth_of_default_firstweekday_partial.
-
-Theorem nth_of_first_under_firstweekday : forall fw u p wd, is_unit u -> wf_date p -> 0 <= fw <= 6 -> valid_wd wd ->
-  fw_nth_of fw u p 1 wd = d_first_of u p (Some ((wd + fw) mod 7)).
+Theorem nth_of_first_under_any_firstweekday : forall fw u p wd, is_unit u ->
+  fw_nth_of fw u p 1 wd = d_first_of u p (Some wd).
 Proof. exact fw_nth_of_first. Qed.
-Print Assumptions nth_of_first_under_firstweekday.
+Print Assumptions nth_of_first_under_any_firstweekday.
 
 Theorem nth_of_from_second_ignores_firstweekday : forall fw u p n wd, n <> 1 -> fw_nth_of fw u p n wd = d_nth_of u p n wd.
 Proof. exact fw_nth_of_from_second. Qed.
 Print Assumptions nth_of_from_second_ignores_firstweekday.
 
-Theorem first_of_weekday_under_firstweekday : forall fw u p wd r, is_unit u -> wf_date p -> 0 <= fw <= 6 -> valid_wd wd ->
-  fw_first_of fw u p (Some wd) = Ok r -> dow r = (wd + fw) mod 7.
+(* the property itself under every configuration: least / greatest day of the unit on the requested weekday *)
+Theorem first_of_spec_under_any_firstweekday : forall fw u p wd, is_unit u -> wf_date p -> valid_wd wd ->
+  exists q, fw_first_of fw u p (Some wd) = Ok q /\ wf_date q /\ in_unit u p q /\ dow q = wd /\
+            date_ord q = unit_start u p + (wd - weekday0 (unit_start u p)) mod 7 /\
+            (forall q', wf_date q' -> in_unit u p q' -> dow q' = wd -> date_ord q <= date_ord q').
+Proof. exact fw_first_of_least. Qed.
+Print Assumptions first_of_spec_under_any_firstweekday.
+
+Theorem last_of_spec_under_any_firstweekday : forall fw u p wd, is_unit u -> wf_date p -> valid_wd wd ->
+  exists q, fw_last_of fw u p (Some wd) = Ok q /\ wf_date q /\ in_unit u p q /\ dow q = wd /\
+            date_ord q = unit_end u p - (weekday0 (unit_end u p) - wd) mod 7 /\
+            (forall q', wf_date q' -> in_unit u p q' -> dow q' = wd -> date_ord q' <= date_ord q).
+Proof. exact fw_last_of_greatest. Qed.
+Print Assumptions last_of_spec_under_any_firstweekday.
+
+Theorem first_of_weekday_under_any_firstweekday : forall fw u p wd r, is_unit u -> wf_date p -> valid_wd wd ->
+  fw_first_of fw u p (Some wd) = Ok r -> dow r = wd.
 Proof. exact fw_first_of_weekday. Qed.
-Print Assumptions first_of_weekday_under_firstweekday.
+Print Assumptions first_of_weekday_under_any_firstweekday.
 
-Theorem first_of_any_firstweekday_refuted :
-  exists fw p wd r, 0 <= fw <= 6 /\ wf_date p /\ valid_wd wd /\
-    fw_first_of fw U_MONTH p (Some wd) = Ok r /\ dow r <> wd /\ d_first_of U_MONTH p (Some wd) <> Ok r.
-Proof. exact first_of_under_firstweekday_refuted. Qed.
-Print Assumptions first_of_any_firstweekday_refuted.
+Theorem last_of_weekday_under_any_firstweekday : forall fw u p wd r, is_unit u -> wf_date p -> valid_wd wd ->
+  fw_last_of fw u p (Some wd) = Ok r -> dow r = wd.
+Proof. exact fw_last_of_weekday. Qed.
+Print Assumptions last_of_weekday_under_any_firstweekday.
 
-Theorem last_of_any_firstweekday_refuted :
-  exists fw p wd r, 0 <= fw <= 6 /\ wf_date p /\ valid_wd wd /\ fw_last_of fw U_YEAR p (Some wd) = Ok r /\ dow r <> wd.
-Proof. exact last_of_under_firstweekday_refuted. Qed.
-Print Assumptions last_of_any_firstweekday_refuted.
+(* the former witnesses of the finding as ordinary instances (calendar.setfirstweekday(6), the usual US setting):
+   Date(2024,5,17).first_of("month", MONDAY) = 2024-05-06, a Monday (was 2024-05-05); .last_of("year", SUNDAY) = 2024-12-29,
+   a Sunday (was 2024-12-28); nth_of("month", 1, MONDAY) = first_of *)
+Theorem first_last_of_under_sunday_firstweekday :
+  fw_first_of 6 U_MONTH (mkdate 2024 5 17) (Some 0) = Ok (mkdate 2024 5 6) /\
+  fw_last_of 6 U_YEAR (mkdate 2024 5 17) (Some 6) = Ok (mkdate 2024 12 29) /\
+  fw_nth_of 6 U_MONTH (mkdate 2024 5 17) 1 0 = Ok (mkdate 2024 5 6) /\
+  dow (mkdate 2024 5 6) = 0 /\ dow (mkdate 2024 12 29) = 6.
+Proof. exact fw_former_witnesses. Qed.
+Print Assumptions first_last_of_under_sunday_firstweekday.
